@@ -20,6 +20,8 @@ import (
 	"io"
 	"net"
 	"os"
+	"path/filepath"
+	"sort"
 	"strconv"
 	"strings"
 	"time"
@@ -74,6 +76,11 @@ type scase struct {
 	ReadMax  int      `json:"read_max"`
 	CutAt    int      `json:"cut_at"` // cut: deliver this many bytes to the real side, then EOF
 	Chunker  string   `json:"chunker"`
+	End      string   `json:"end"`    // "" | eof | reset: both directions end with a final chunk handed out together with that error
+	TailI    int      `json:"tail_i"` // bytes of the stream towards I that come in the same Read as the error
+	TailR    int      `json:"tail_r"`
+	Batches  int      `json:"batches,omitempty"` // concurrent family
+	Pairs    int      `json:"pairs,omitempty"`
 }
 
 var (
@@ -113,6 +120,8 @@ func classify(err error) string {
 		return "fail:eof"
 	case errors.Is(err, net.ErrClosed):
 		return "fail:closed"
+	case errors.Is(err, obfskit.ErrReset):
+		return "fail:reset"
 	case strings.Contains(err.Error(), "failed to find peer magic value"):
 		return "fail:nomagic"
 	case strings.Contains(err.Error(), "too much pre-magic-padding"):
@@ -265,6 +274,18 @@ func (c *scase) deliverHS(e *ep, data []byte, sizes []int, eofAfter bool) {
 			}
 		}
 		r.Count("deadline", "after-success:"+last)
+		// the constructor has returned: no handshake deadline may stay armed, in either direction
+		// (a conn that honours deadlines would fail a Read/Write 30 s after the connection was made)
+		if rdl, wdl := obfskit.DeadlineState(e.sc.EventsCopy()); rdl != 0 || wdl != 0 {
+			half := "read"
+			if rdl == 0 {
+				half = "write"
+			} else if wdl != 0 {
+				half = "read and write"
+			}
+			c.violate("deadline-left-armed-after-handshake", "impl-oracle",
+				fmt.Sprintf("real %s %s: the handshake succeeded and the constructor returned, but the %s deadline of the conn is still armed (read +%.0fs, write +%.0fs): later I/O in that direction times out", "obfs3", e.role, half, rdl.Seconds(), wdl.Seconds()))
+		}
 	}
 }
 
@@ -365,6 +386,9 @@ func (c *scase) drainLean(e *ep) {
 		case len(f) == 2 && f[0] == "ok":
 			e.got = append(e.got, vlib.UnHex(f[1])...)
 			continue
+		case len(f) == 3 && f[0] == "okerr":
+			e.got = append(e.got, vlib.UnHex(f[1])...)
+			e.lerr = "fail:" + f[2]
 		case len(f) == 2 && f[0] == "fail":
 			e.lerr = "fail:" + f[1]
 		case rep != "block":
@@ -441,6 +465,35 @@ func (c *scase) checkDue(to, from *ep, coalesced bool) {
 	c.violate(sig, "impl-oracle",
 		fmt.Sprintf("%s %s wrote %d bytes which reached real %s's socket in %s; real %s is blocked in Read with only %d bytes delivered (%d bytes still queued on the socket, %d in rxBuf) and the peer sends nothing more",
 			kindOf(from), from.role, len(to.due), to.role, how, to.role, len(to.rd.Got), to.sc.Pending(), obfs3.VerifRxBufLen(to.conn)))
+}
+
+// deliverFinal hands a side the end of its input: `front` as an ordinary chunk, then the last
+// `tail` bytes in the same Read as the error (n > 0 together with err, which io.Reader permits).
+// Towards a reference peer the bytes are delivered plainly (there is no real code to examine).
+func (c *scase) deliverFinal(e *ep, wire []byte, tail int) {
+	if !e.real {
+		c.deliverData(e, wire, nil, false)
+		return
+	}
+	if tail > len(wire) {
+		tail = len(wire)
+	}
+	front, last := wire[:len(wire)-tail], wire[len(wire)-tail:]
+	d.Call("feed %s %s", e.sess, vlib.Hex(front))
+	d.Call("feedlast %s %s %s", e.sess, vlib.Hex(last), c.End)
+	c.drainLean(e)
+	err := io.EOF
+	if c.End == "reset" {
+		err = obfskit.ErrReset
+	}
+	e.sc.Feed(front)
+	e.sc.FeedWithErr(last, err)
+	e.rd.Pump()
+	c.observeBuf(e)
+	if e.rd.Panic != nil {
+		c.violate("read-panics", "impl-oracle", fmt.Sprintf("real %s Read panicked: %v", e.role, e.rd.Panic))
+	}
+	r.Count("end-of-stream", fmt.Sprintf("%s tail=%s", c.End, obfskit.SizeClass(tail)))
 }
 
 func (e *ep) close() {
@@ -614,8 +667,28 @@ func runCase(c *scase) {
 		second.due = append(second.due, coalesced...)
 		c.deliverData(second, nil, nil, false)
 		c.checkDue(second, first, true)
+		var lastFirst, lastSecond []byte
+		if c.End != "" && len(wFirst) > 0 && len(wSecond) > 0 {
+			lastFirst, wFirst = wFirst[len(wFirst)-1], wFirst[:len(wFirst)-1]
+			lastSecond, wSecond = wSecond[len(wSecond)-1], wSecond[:len(wSecond)-1]
+		}
 		send(first, second, wFirst, dataToSecond, false)
 		send(second, first, wSecond, dataToFirst, false)
+		if lastFirst != nil {
+			// both sides write once more, then each input ends: the last bytes arrive with the error
+			cat := func(ws [][]byte) []byte { return bytes.Join(ws, nil) }
+			w1 := cat(c.write(first, lastFirst))
+			w2 := cat(c.write(second, lastSecond))
+			if first.fatal != "" || second.fatal != "" {
+				return
+			}
+			tailSecond, tailFirst := c.TailR, c.TailI
+			if c.First == "r" {
+				tailSecond, tailFirst = c.TailI, c.TailR
+			}
+			c.deliverFinal(second, w1, tailSecond)
+			c.deliverFinal(first, w2, tailFirst)
+		}
 	}
 	// --- judge
 	check := func(to, from *ep, want []byte) {
@@ -638,10 +711,23 @@ func runCase(c *scase) {
 				}
 				return
 			}
-			if !bytes.Equal(to.rd.Got, want) || to.rd.Err != nil {
+			if !bytes.Equal(to.rd.Got, want) || (to.rd.Err != nil && c.End == "") {
 				sig := "stream-not-delivered-intact"
 				if !from.real {
 					sig = "no-interop-with-reference-peer"
+				}
+				if c.End != "" && to.rd.Err != nil && len(to.rd.Got) < len(want) && bytes.HasPrefix(want, to.rd.Got) {
+					// every byte the peer wrote must be delivered before the error is reported
+					sig = "tail-lost-data-delivered-with-error"
+					tail := c.TailR
+					if to.role == "i" {
+						tail = c.TailI
+					}
+					if tail > len(want) {
+						// the chunk that came with the error reaches back into the magic / padding: it was
+						// consumed by findPeerMagic, which returns on any error before looking at the bytes
+						sig = "tail-lost-data-with-error-in-magic-scan"
+					}
 				}
 				c.violate(sig, "impl-oracle",
 					fmt.Sprintf("%s %s wrote %d bytes (padding %d+%d), real %s read %d bytes, first difference at %d, err=%v", kindOf(from), from.role, len(want),
@@ -709,6 +795,67 @@ func privClass(h string) string {
 		return "random-even"
 	default:
 		return "random-odd"
+	}
+}
+
+// ---------------------------------------------------------------- concurrency (S oracle only)
+
+// runConcurrent: `batches` × `pairs` real client↔server pairs over buffered in-memory pipes, all
+// handshakes of a batch released at the same instant on separate goroutines: state shared between
+// connections (a package-level HMAC / cipher / big.Int scratch value) only shows when connections
+// overlap. Every pair must complete and carry its payloads intact; nothing is compared with the model.
+func runConcurrent(c *scase) {
+	tape = vlib.InstallRandTape(c.TapeSeed)
+	csrand.Reader = tape
+	g := vlib.NewRng(c.TapeSeed ^ 0x5eed)
+	dial := func(raw net.Conn) (net.Conn, error) {
+		return cf.Dial("tcp", "192.0.2.1:1", func(string, string) (net.Conn, error) { return raw, nil }, nil)
+	}
+	bad := 0
+	for b := 0; b < c.Batches; b++ {
+		pl := make([][2][]byte, c.Pairs)
+		for i := range pl {
+			pl[i] = [2][]byte{g.Bytes(1 + g.Intn(3000)), g.Bytes(1 + g.Intn(3000))}
+		}
+		res := obfskit.RunPairs(c.Pairs, func(i int) ([]byte, []byte) { return pl[i][0], pl[i][1] }, dial, sf.WrapConn, 10*time.Second)
+		for i, x := range res {
+			r.Case(fmt.Sprintf("concurrent %d batch %d pair %d", c.TapeSeed, b, i), true)
+			r.Count("kind", "concurrent-real-real")
+			if x.Err == "" {
+				continue
+			}
+			bad++
+			sig := "stream-garbled-under-concurrency"
+			if x.Panic || strings.Contains(x.Err, "handshake") || strings.Contains(x.Err, "in time") || strings.Contains(x.Err, "read:") {
+				sig = "handshake-fails-under-concurrency"
+			}
+			c.violate(sig, "impl-oracle",
+				fmt.Sprintf("batch %d of %d simultaneous obfs3 client/server pairs in one process, pair %d: %s (the same pair run alone completes)", b, c.Pairs, i, x.Err))
+		}
+		if bad > 0 {
+			break // one failing batch is the finding; further batches would only repeat it (and may each run into the time limit)
+		}
+	}
+	r.Count("concurrent-outcome", fmt.Sprintf("failed-pairs=%d", bad))
+}
+
+// runCorpus re-runs the kept replays (known findings, past disagreements) first.
+func runCorpus() {
+	files, _ := filepath.Glob(filepath.Join(os.Getenv("VERIF_DIR"), "corpus", "C13", "*.json"))
+	sort.Strings(files)
+	for _, f := range files {
+		b, err := os.ReadFile(f)
+		if err != nil {
+			continue
+		}
+		var doc struct {
+			Case scase `json:"case"`
+		}
+		if json.Unmarshal(b, &doc) != nil || doc.Case.Kind == "" || doc.Case.Kind == "dh" || doc.Case.Kind == "concurrent" {
+			continue
+		}
+		r.Count("kind", "corpus")
+		runCase(&doc.Case)
 	}
 }
 
@@ -879,6 +1026,35 @@ func genSession(g *vlib.Rng, i int, chunker string, iReal, rReal bool) *scase {
 	c.WritesI = genWrites(g, tiny, r.Thorough() && i%40 == 7 && !tiny)
 	c.WritesR = genWrites(g, tiny, false)
 	layout(g, c, chunker)
+	if i%3 == 1 {
+		// the connection ends in both directions: the last bytes come in the same Read as the error
+		c.End = vlib.Pick(g, []string{"eof", "eof", "reset"})
+		tail := func(ws []string) int {
+			n := len(vlib.UnHex(ws[len(ws)-1]))
+			if n > c.ReadMax {
+				n = c.ReadMax
+			}
+			return 1 + g.Intn(n)
+		}
+		c.TailR, c.TailI = tail(c.WritesI), tail(c.WritesR)
+	}
+	return c
+}
+
+// genScanEnd: each side writes once; the peer's whole second flight pad2 ‖ magic ‖ data is the final
+// chunk, handed out together with the error while the receiver is still scanning for the magic.
+func genScanEnd(g *vlib.Rng, realRole string, end string, p2, dlen int) *scase {
+	c := &scase{Kind: "session", TapeSeed: g.U64(), Chunker: "scan-end", CutAt: -1, First: vlib.Pick(g, []string{"i", "r"}), End: end, ReadMax: 32768}
+	c.I = genSide(g, 1, realRole != "r", true)
+	c.R = genSide(g, 2, realRole != "i", true)
+	for _, x := range []*sideSpec{&c.I, &c.R} {
+		x.Pad2, x.Reject = p2, 0
+		if !x.Real {
+			x.Pad2B = randHex(g, p2)
+		}
+	}
+	c.WritesI, c.WritesR = []string{randHex(g, dlen)}, []string{randHex(g, dlen)}
+	c.TailI, c.TailR = p2+magicLen+dlen, magicLen/2+dlen
 	return c
 }
 
@@ -974,9 +1150,102 @@ type dhcase struct {
 	PrivA string `json:"priv_a"`
 	PrivB string `json:"priv_b"`
 	Peer  string `json:"peer,omitempty"` // arbitrary peer key bytes for the correspondence of Handshake
+	PrivC string `json:"priv_c,omitempty"` // reuse family: a second initiator against the same parsed key of B
+	Reuse bool   `json:"reuse,omitempty"`
+}
+
+// runDHReuse: key objects are values, not one-shot tokens. One parsed copy of B's public key (and
+// B's PrivateKey object, whose embedded PublicKey is also used as a peer key) serves several
+// Handshake calls — two initiators A and C, repeated exchanges, calls in both directions. Every
+// call must return the secret of the ORIGINAL numbers (= what the other party derives with freshly
+// parsed keys = the Lean sharedSecret), and the key objects must read back unchanged.
+func runDHReuse(c *dhcase) {
+	key, _ := json.Marshal(c)
+	r.Case(string(key), true)
+	r.Count("kind", "dh-reuse")
+	gen := func(h string) *uniformdh.PrivateKey {
+		k, err := uniformdh.GenerateKey(bytes.NewReader(vlib.UnHex(h)))
+		if err != nil {
+			r.Violate("uniformdh-generatekey-fails", "impl-oracle", err.Error(), c)
+		}
+		return k
+	}
+	ka, kb, kc := gen(c.PrivA), gen(c.PrivB), gen(c.PrivC)
+	if ka == nil || kb == nil || kc == nil {
+		return
+	}
+	pub := func(k *uniformdh.PrivateKey) []byte { b, _ := k.PublicKey.Bytes(); return b }
+	paB, pbB, pcB := pub(ka), pub(kb), pub(kc)
+	parse := func(b []byte) *uniformdh.PublicKey {
+		var p uniformdh.PublicKey
+		if err := p.SetBytes(b); err != nil {
+			r.Violate("uniformdh-setbytes-fails", "impl-oracle", err.Error(), c)
+		}
+		return &p
+	}
+	// reference values: the other party's view with freshly parsed keys, and the Lean model
+	fresh := func(k *uniformdh.PrivateKey, peer []byte) []byte { s, _ := safeHandshake(k, parse(peer)); return s }
+	model := func(priv string, peer []byte) string {
+		f := obfskit.Fields(d.Call("dh %s %s", priv, vlib.Hex(peer)))
+		if len(f) != 3 {
+			return "driver:" + strings.Join(f, " ")
+		}
+		return f[2]
+	}
+	wantAB, wantCB := fresh(kb, paB), fresh(kb, pcB) // B's side, computed before anything is reused
+	mAB, mCB := model(c.PrivA, pbB), model(c.PrivC, pbB)
+	shared := parse(pbB) // ONE parsed copy of B's key for everybody
+	type call struct {
+		who  string
+		k    *uniformdh.PrivateKey
+		peer *uniformdh.PublicKey
+		want []byte
+		m    string
+	}
+	calls := []call{
+		{"A with the shared parsed key of B (1st use)", ka, shared, wantAB, mAB},
+		{"C with the shared parsed key of B (2nd use)", kc, shared, wantCB, mCB},
+		{"A with the shared parsed key of B (3rd use)", ka, shared, wantAB, mAB},
+		{"A with B's own PrivateKey.PublicKey (1st use)", ka, &kb.PublicKey, wantAB, mAB},
+		{"C with B's own PrivateKey.PublicKey (2nd use)", kc, &kb.PublicKey, wantCB, mCB},
+		{"B with A's own PrivateKey.PublicKey, after B's key was used as a peer key", kb, &ka.PublicKey, wantAB, mAB},
+		{"B with a fresh parse of C's key, after B's key was used as a peer key", kb, parse(pcB), wantCB, mCB},
+		{"C with the shared parsed key of B (4th use)", kc, shared, wantCB, mCB},
+	}
+	for n, x := range calls {
+		got, pv := safeHandshake(x.k, x.peer)
+		r.Validated(1)
+		if pv != nil {
+			r.Violate("uniformdh-handshake-panics", "impl-oracle", fmt.Sprintf("call %d (%s): %v", n+1, x.who, pv), c)
+			return
+		}
+		if !bytes.Equal(got, x.want) {
+			sig := "secret-history-dependent"
+			if n > 0 && strings.Contains(x.who, "use)") {
+				sig = "handshake-mutates-peer-key"
+			}
+			r.Violate(sig, "impl-oracle",
+				fmt.Sprintf("call %d of a series on the same key objects (%s) returns …%s, but the other party (fresh keys, same numbers) derives …%s: the result of Handshake depends on earlier calls", n+1, x.who, vlib.Hex(tail(got, 8)), vlib.Hex(tail(x.want, 8))), c)
+			return
+		}
+		if vlib.Hex(got) != x.m {
+			r.Violate("uniformdh-differs-from-model", "correspondence",
+				fmt.Sprintf("call %d (%s): real …%s, model %s", n+1, x.who, vlib.Hex(tail(got, 8)), tail([]byte(x.m), 16)), c)
+			return
+		}
+	}
+	// the key objects read back unchanged
+	if sb, _ := shared.Bytes(); !bytes.Equal(sb, pbB) || !bytes.Equal(pub(kb), pbB) || !bytes.Equal(pub(ka), paB) || !bytes.Equal(pub(kc), pcB) {
+		r.Violate("handshake-mutates-peer-key", "impl-oracle", "a key object's Bytes() changed after Handshake calls", c)
+	}
+	r.Count("dh-reuse", privClass(c.PrivA)+"/"+privClass(c.PrivB)+"/"+privClass(c.PrivC))
 }
 
 func runDH(c *dhcase) {
+	if c.Reuse {
+		runDHReuse(c)
+		return
+	}
 	key, _ := json.Marshal(c)
 	a0, b0 := vlib.UnHex(c.PrivA), vlib.UnHex(c.PrivB)
 	r.Case(string(key), true)
@@ -1126,6 +1395,11 @@ func main() {
 			var c dhcase
 			r.LoadReplay(&c)
 			runDH(&c)
+		} else if probe.Kind == "concurrent" {
+			var c scase
+			r.LoadReplay(&c)
+			c.Batches *= 10 // scheduling is not reproducible: replay the family, harder
+			runConcurrent(&c)
 		} else {
 			var c scase
 			r.LoadReplay(&c)
@@ -1135,10 +1409,22 @@ func main() {
 	}
 
 	g := vlib.NewRng(r.Seed)
+	runCorpus()
+	// --- overlapping connections (r.Scale triples the counts in search mode)
+	runConcurrent(&scase{Kind: "concurrent", TapeSeed: g.U64(), Batches: r.Scale(60, 600), Pairs: 16})
 	// --- UniformDH
 	nDH := r.Scale(45, 600)
 	for i := 0; i < nDH; i++ {
 		runDH(&dhcase{Kind: "dh", PrivA: genPriv(g, i), PrivB: genPriv(g, i/9+i)})
+	}
+	// key objects reused across several exchanges, all parity combinations of the three keys
+	for i := 0; i < r.Scale(16, 160); i++ {
+		set := func(h string, bit int) string {
+			b := vlib.UnHex(h)
+			b[keySize-1] = b[keySize-1]&^1 | byte(bit)
+			return vlib.Hex(b)
+		}
+		runDH(&dhcase{Kind: "dh", Reuse: true, PrivA: set(genPriv(g, i), i&1), PrivB: set(genPriv(g, i/8+i+3), i>>1&1), PrivC: set(genPriv(g, 6+i%3), i>>2&1)})
 	}
 	pm1 := strings.ToLower(modpHex[:len(modpHex)-1] + "e")
 	pp1 := strings.ToLower(modpHex[:len(modpHex)-16] + "0000000000000000")
@@ -1190,6 +1476,13 @@ func main() {
 	for _, role := range []string{"i", "r"} {
 		for _, cut := range []int{0, 1, 100, 191, 192} {
 			runCase(genCut(g.Fork(), role, cut))
+		}
+	}
+	// --- the stream ends while the receiver still scans for the magic: the final chunk (part of the
+	// magic and the data, or the whole second flight) comes in the same Read as the error
+	for _, role := range []string{"i", "r", "both"} {
+		for _, end := range []string{"eof", "reset"} {
+			runCase(genScanEnd(g.Fork(), role, end, []int{0, 7, 300}[g.Intn(3)], 1+g.Intn(200)))
 		}
 	}
 	// --- the peer's whole flight (key ‖ pad1 ‖ pad2 ‖ magic ‖ data) in one segment, and in two
